@@ -883,7 +883,12 @@ func classify(rep *Reply) {
 		return
 	default:
 		rep.Kind = "text"
-		return
+		// an error text followed by a form is two replies glued together: the form, and
+		// above all a SAMLResponse inside it, must not be overlooked
+		if !bytes.Contains(body, []byte("<form")) && !bytes.Contains(body, []byte("SAMLResponse")) {
+			return
+		}
+		rep.Malformed = "body starts with plain text but also carries an HTML form: more than one reply in one body"
 	}
 	doc, err := html.Parse(bytes.NewReader(body))
 	if err != nil {
@@ -902,7 +907,9 @@ func classify(rep *Reply) {
 	}
 	walk(doc)
 	if len(forms) != 1 {
-		rep.Malformed = fmt.Sprintf("HTML reply with %d forms", len(forms))
+		if rep.Malformed == "" {
+			rep.Malformed = fmt.Sprintf("HTML reply with %d forms", len(forms))
+		}
 		return
 	}
 	inputs := map[string]string{}
